@@ -306,7 +306,8 @@ CLAIMED["C05"] = dict(
     note=TB + "; external DFT contract as in C02")
 
 CLAIMED["C08"] = dict(
-    text="Decided by contracts (real text, per shape / exhaustive over the tables): get_transform_TR / get_transform_Inv (every k-derivative flips "
+    category="other",        # one formula-level obligation is the recorded finding K5 and stays undischarged
+    text="(Mixed: every obligation discharged except the one that is the recorded known finding K5 -- the antisymmetric SDCT Fermi-surface term II under time reversal.) Decided by contracts (real text, per shape / exhaustive over the tables): get_transform_TR / get_transform_Inv (every k-derivative flips "
          "both parities; Hamiltonian even/even, spin / curvature-like / orbital-like matrices TR-odd and inversion-even; gauge-dependent matrices "
          "without parity; unknown names refused); Data_K.covariant hands each (name, derivative order) its table entry, the generalised "
          "derivative one more order, the velocity odd/odd; Transform.__call__ (permutation, conjugation, sign) and TransformProduct on symbolic "
